@@ -5,33 +5,44 @@
 
 pub trait UpdateLeadingTrivia: Sized {
     spec fn same_sem(&self, r: &Self) -> bool;
+    spec fn lead_ok(&self, t: FormatTriviaType, r: &Self) -> bool;
     fn update_leading_trivia(&self, leading_trivia: FormatTriviaType) -> (r: Self)
-        ensures self.same_sem(&r);
+        ensures self.same_sem(&r), self.lead_ok(leading_trivia, &r);
 }
 pub trait UpdateTrailingTrivia: Sized {
     spec fn same_sem_t(&self, r: &Self) -> bool;
+    spec fn trail_ok(&self, t: FormatTriviaType, r: &Self) -> bool;
     fn update_trailing_trivia(&self, trailing_trivia: FormatTriviaType) -> (r: Self)
-        ensures self.same_sem_t(&r);
+        ensures self.same_sem_t(&r), self.trail_ok(trailing_trivia, &r);
 }
 pub trait UpdateTrivia: Sized {
     spec fn same_sem_u(&self, r: &Self) -> bool;
     fn update_trivia(&self, leading_trivia: FormatTriviaType, trailing_trivia: FormatTriviaType) -> (r: Self)
         ensures self.same_sem_u(&r);
 }
+pub uninterp spec fn expr_padded_left(e: Expression) -> bool;
+pub uninterp spec fn tok_followed_by_ws(t: TokenReference) -> bool;   // the token's trailing trivia ends with trivia the formatter appended
+pub open spec fn append_ends_with_space(t: FormatTriviaType) -> bool {
+    t is Append && t->Append_0@.len() > 0 && token_type_of(t->Append_0@.last()) == spaces_tt(1)
+}   // the expression's leading trivia ends with a space token the formatter appended
 impl UpdateLeadingTrivia for Expression {
-    open spec fn same_sem(&self, r: &Self) -> bool { skel(*r) == skel(*self) }
+    open spec fn same_sem(&self, r: &Self) -> bool { skel(*r) == skel(*self) && begins_with_bracket_string(*r) == begins_with_bracket_string(*self) }
+    open spec fn lead_ok(&self, t: FormatTriviaType, r: &Self) -> bool { append_ends_with_space(t) ==> expr_padded_left(*r) }
     #[verifier::external_body] fn update_leading_trivia(&self, leading_trivia: FormatTriviaType) -> (r: Self) { unimplemented!() }
 }
 impl UpdateTrailingTrivia for Expression {
-    open spec fn same_sem_t(&self, r: &Self) -> bool { skel(*r) == skel(*self) }
+    open spec fn same_sem_t(&self, r: &Self) -> bool { skel(*r) == skel(*self) && begins_with_bracket_string(*r) == begins_with_bracket_string(*self) && expr_padded_left(*r) == expr_padded_left(*self) }
+    open spec fn trail_ok(&self, t: FormatTriviaType, r: &Self) -> bool { true }
     #[verifier::external_body] fn update_trailing_trivia(&self, trailing_trivia: FormatTriviaType) -> (r: Self) { unimplemented!() }
 }
 impl UpdateLeadingTrivia for BinOp {
     open spec fn same_sem(&self, r: &Self) -> bool { binop_id(*r) == binop_id(*self) }
+    open spec fn lead_ok(&self, t: FormatTriviaType, r: &Self) -> bool { true }
     #[verifier::external_body] fn update_leading_trivia(&self, leading_trivia: FormatTriviaType) -> (r: Self) { unimplemented!() }
 }
 impl UpdateTrailingTrivia for BinOp {
     open spec fn same_sem_t(&self, r: &Self) -> bool { binop_id(*r) == binop_id(*self) }
+    open spec fn trail_ok(&self, t: FormatTriviaType, r: &Self) -> bool { true }
     #[verifier::external_body] fn update_trailing_trivia(&self, trailing_trivia: FormatTriviaType) -> (r: Self) { unimplemented!() }
 }
 impl UpdateTrivia for BinOp {
@@ -40,18 +51,22 @@ impl UpdateTrivia for BinOp {
 }
 impl UpdateLeadingTrivia for UnOp {
     open spec fn same_sem(&self, r: &Self) -> bool { unop_id(*r) == unop_id(*self) }
+    open spec fn lead_ok(&self, t: FormatTriviaType, r: &Self) -> bool { true }
     #[verifier::external_body] fn update_leading_trivia(&self, leading_trivia: FormatTriviaType) -> (r: Self) { unimplemented!() }
 }
 impl UpdateTrailingTrivia for UnOp {
     open spec fn same_sem_t(&self, r: &Self) -> bool { unop_id(*r) == unop_id(*self) }
+    open spec fn trail_ok(&self, t: FormatTriviaType, r: &Self) -> bool { true }
     #[verifier::external_body] fn update_trailing_trivia(&self, trailing_trivia: FormatTriviaType) -> (r: Self) { unimplemented!() }
 }
 impl UpdateLeadingTrivia for TokenReference {
     open spec fn same_sem(&self, r: &Self) -> bool { tok_of(*r) == tok_of(*self) }
+    open spec fn lead_ok(&self, t: FormatTriviaType, r: &Self) -> bool { true }
     #[verifier::external_body] fn update_leading_trivia(&self, leading_trivia: FormatTriviaType) -> (r: Self) { unimplemented!() }
 }
 impl UpdateTrailingTrivia for TokenReference {
     open spec fn same_sem_t(&self, r: &Self) -> bool { tok_of(*r) == tok_of(*self) }
+    open spec fn trail_ok(&self, t: FormatTriviaType, r: &Self) -> bool { (t is Append && t->Append_0@.len() > 0) ==> tok_followed_by_ws(*r) }
     #[verifier::external_body] fn update_trailing_trivia(&self, trailing_trivia: FormatTriviaType) -> (r: Self) { unimplemented!() }
 }
 impl UpdateTrivia for TokenReference {
@@ -60,20 +75,24 @@ impl UpdateTrivia for TokenReference {
 }
 impl UpdateLeadingTrivia for ContainedSpan {
     open spec fn same_sem(&self, r: &Self) -> bool { true }
+    open spec fn lead_ok(&self, t: FormatTriviaType, r: &Self) -> bool { true }
     #[verifier::external_body] fn update_leading_trivia(&self, leading_trivia: FormatTriviaType) -> (r: Self) { unimplemented!() }
 }
 impl UpdateTrailingTrivia for ContainedSpan {
     open spec fn same_sem_t(&self, r: &Self) -> bool { true }
+    open spec fn trail_ok(&self, t: FormatTriviaType, r: &Self) -> bool { true }
     #[verifier::external_body] fn update_trailing_trivia(&self, trailing_trivia: FormatTriviaType) -> (r: Self) { unimplemented!() }
 }
 #[cfg(feature = "luau")]
 impl UpdateLeadingTrivia for full_moon::ast::luau::TypeAssertion {
     open spec fn same_sem(&self, r: &Self) -> bool { type_assertion_id(*r) == type_assertion_id(*self) }
+    open spec fn lead_ok(&self, t: FormatTriviaType, r: &Self) -> bool { true }
     #[verifier::external_body] fn update_leading_trivia(&self, leading_trivia: FormatTriviaType) -> (r: Self) { unimplemented!() }
 }
 #[cfg(feature = "luau")]
 impl UpdateTrailingTrivia for full_moon::ast::luau::TypeAssertion {
     open spec fn same_sem_t(&self, r: &Self) -> bool { type_assertion_id(*r) == type_assertion_id(*self) }
+    open spec fn trail_ok(&self, t: FormatTriviaType, r: &Self) -> bool { true }
     #[verifier::external_body] fn update_trailing_trivia(&self, trailing_trivia: FormatTriviaType) -> (r: Self) { unimplemented!() }
 }
 
